@@ -24,7 +24,8 @@ ASSUMPTIONS = ['pandas arithmetic of two Series on one index is pointwise with N
                'comparisons with NaN are False, np.minimum/np.maximum propagate NaN, x**0 = 1 and 1**y = 1 also for NaN (PygModel/OpsX.lean, sampled)',
                'not modelled: frames with duplicate column names / numpy arrays (positional columns), the column policies lj/rj, the object-dtype empty `pd.Series({})` '
                '(no common column) fed on into an operator with a fill method, DataFrame operands of pow_/comparisons/min_/max_, negative or fractional exponents, '
-               'df_std, aggregates over a mix of frames and Series, float rounding']
+               'df_std, float rounding; aggregates over a mix of frames and Series / one-column frames are checked against the statement only (aggx, known finding C08-A1)',
+               'aggregates: a scalar operand counts at every timestamp / in every cell, a NaN scalar never (PygModel/Ops.lean aggregate, OpsF.lean aggregateFS, sampled)']
 S = 4
 nan = float('nan')
 VALS = [0.0, 0.0, 1.0, -1.0, 2.0, 0.5, -0.25, 3.0, 1.5]
